@@ -28,6 +28,19 @@ theorem expected_pairwise {w : Nat} (val : BitVec w → Int) (base : Int) (ms : 
     simp only [Function.comp, hval a ha', hval b hb']
     omega
 
+/-- the values an iterator writes, exactly: `base + i` for the first `n` members in the direction's order -/
+theorem expected_values {w : Nat} (val : BitVec w → Int) (base : Int) (ms : List Nat)
+    (hlt : ∀ i ∈ ms, i < 1024) (add : BitVec w)
+    (hval : ∀ i, i < 1024 → val (BitVec.ofNat w i + add) = base + i) (rev : Bool) (n : Int) :
+    (expected rev ms add n).map val = ((if rev then ms.reverse else ms).take n.toNat).map (fun (i : Nat) => base + (i : Int)) := by
+  unfold expected
+  rw [List.map_map]
+  apply List.map_congr_left
+  intro i hi
+  have hi' : i ∈ (if rev then ms.reverse else ms) := List.mem_of_mem_take hi
+  have : i ∈ ms := by cases rev <;> simpa using hi'
+  simp only [Function.comp, hval i (hlt i this)]
+
 theorem members1024_lt (b : Bit1024) : ∀ i ∈ members1024 b, i < 1024 := by
   intro i hi
   unfold members1024 at hi
